@@ -485,7 +485,7 @@ run_map(void)
 // ==================================================================
 // object id storms
 // ==================================================================
-#define HBITS 18
+#define HBITS 20
 typedef struct {
 	uint32_t        slot[1u << HBITS];
 	long            n;
@@ -659,11 +659,53 @@ free_slot(sent *a)
 	return -1;
 }
 
+// a second thread opens and closes sockets and contexts while the storm
+// runs: ids come from the same maps under the library's own locking
+static _Atomic int  side_stop;
+static _Atomic long side_ids;
+
+static void *
+side_thread(void *arg)
+{
+	(void) arg;
+	int rounds = 0;
+	while (!atomic_load(&side_stop)) {
+		nng_socket s;
+		if (++rounds > 150) {
+			vf_usleep(200); // enough ids for one case
+			continue;
+		}
+		nng_ctx    c[3];
+		if (nng_req0_open(&s) != 0) {
+			continue;
+		}
+		id_issue(&ids_sock, nng_socket_id(s), 1, 0x7fffffff);
+		atomic_fetch_add(&side_ids, 1);
+		for (int i = 0; i < 3; i++) {
+			if (nng_ctx_open(&c[i], s) == 0) {
+				id_issue(&ids_ctx, nng_ctx_id(c[i]), 1, 0x7fffffff);
+				atomic_fetch_add(&side_ids, 1);
+			}
+		}
+		if (nng_ctx_id(c[0]) == nng_ctx_id(c[1]) || nng_ctx_id(c[1]) == nng_ctx_id(c[2]) || nng_ctx_id(c[0]) == nng_ctx_id(c[2])) {
+			vf_violation("C18/ids/duplicate-live/context", "two open contexts share an id (concurrent opens)");
+		}
+		nng_socket_close(s);
+	}
+	return NULL;
+}
+
 static void
 storm_case(long idx, vf_rng *r)
 {
-	int nops = (int) vf_range(r, 150, 400);
-	vf_case_begin(idx, "id storm ops=%d", nops);
+	int       nops = (int) vf_range(r, 150, 400);
+	pthread_t side;
+	bool      have_side = (idx & 1) == 0;
+	vf_case_begin(idx, "id storm ops=%d%s", nops, have_side ? " + concurrent opener" : "");
+	atomic_store(&side_stop, 0);
+	if (have_side && pthread_create(&side, NULL, side_thread, NULL) != 0) {
+		vf_harness_fail("pthread_create");
+	}
 	for (int op = 0; op < nops; op++) {
 		uint32_t x = vf_below(r, 100);
 		int      si = (int) vf_below(r, MAXS);
@@ -770,6 +812,10 @@ storm_case(long idx, vf_rng *r)
 		}
 	}
 	live_ids_unique();
+	if (have_side) {
+		atomic_store(&side_stop, 1);
+		pthread_join(side, NULL);
+	}
 	for (int i = 0; i < MAXS; i++) {
 		if (socks[i].live) {
 			storm_close_sock(i);
@@ -943,6 +989,7 @@ run_storm(void)
 	vf_stat("ids_requests", ids_req.n);
 	vf_stat("ids_surveys", ids_surv.n);
 	vf_stat("pipe_events", atomic_load(&pipe_adds) + atomic_load(&pipe_rems));
+	vf_stat("ids_concurrent", atomic_load(&side_ids));
 }
 
 int
